@@ -116,6 +116,41 @@ def run_config(cfg, dataset, scheme, one, libseed):
     return st, cons, ilp_count() - before
 
 
+def mutate_in_place(dataset, ds, r):
+    """One step of a history on an already used Dataset object; returns (kind, applied?).
+    kinds: remove_empty_rankings (preferred when the dataset holds an empty ranking), remove_elements (one or two
+    elements), remove_elements_rate_presence_lower_than, and two aliasing steps -- the mutation is applied to a dataset
+    DERIVED from this one earlier (unified_dataset / a projection on all its elements), which must leave this one as it is.
+    The caller judges what follows against libx.raw_dataset(dataset), i.e. against the rankings the Dataset now holds."""
+    uni = ref.universe(ds)
+    has_empty = any(len(rk) == 0 for rk in ds) and any(len(rk) for rk in ds)
+    kinds = ["remove_elements", "remove_elements", "rate", "derived-unified", "derived-projection", "remove_empty"]
+    if has_empty:
+        kinds += ["remove_empty"] * 6
+    kind = r.choice(kinds)
+    victims = r.sample(uni, min(len(uni) - 1, r.choice([1, 1, 2]))) if len(uni) >= 2 else []
+    if kind == "remove_empty":
+        st, _ = call(dataset.remove_empty_rankings)
+    elif kind == "remove_elements":
+        if not victims:
+            return kind, False
+        st, _ = call(dataset.remove_elements, {ck.Element(v) for v in victims})
+    elif kind == "rate":
+        st, _ = call(dataset.remove_elements_rate_presence_lower_than, r.choice([0.3, 0.5, 0.6, 1.0]))
+    else:
+        if not victims:
+            return kind, False
+        if kind == "derived-unified":
+            st, other = call(dataset.unified_dataset)
+        else:
+            st, other = call(dataset.sub_problem_from_elements, set(dataset.universe))
+        if st == "ok":
+            st, _ = call(other.remove_elements, {ck.Element(v) for v in victims})
+            if r.random() < 0.5:
+                call(other.remove_empty_rankings)
+    return kind, st == "ok"
+
+
 def refusal_is_documented(cfg, exc, ds_complete, one):
     """a documented refusal (the algorithm does not accept this input)"""
     from corankco.algorithms.exact.exactalgorithmbase import IncompatibleArgumentsException
